@@ -132,6 +132,8 @@ PLAN = {
 GOAL_CFG = {
     "g_cost": {"Keys": [1, 2, 3, 4], "Hashes": [1, 2, 3, 4], "Clients": [1], "MaxOps": 16, "Ops": ["set", "get"], "BufCap": 3,
                "Costs": [1, 2, 3], "InitMaxCost": 4, "MaxCosts": [4], "MaxGets": 4},
+    "g_victim": {"Keys": [1, 2, 3], "Hashes": [1, 2, 3], "Clients": [1, 2], "MaxOps": 8, "Ops": ["set", "del", "get"], "BufCap": 2,
+                 "Costs": [1, 2], "InitMaxCost": 2, "MaxCosts": [2], "MaxGets": 2},
     "g_write": {"Keys": [1, 2], "Hashes": [1, 2], "Clients": [1, 2], "MaxOps": 8, "Ops": ["set", "del", "wait"], "BufCap": 1,
                 "Costs": [1, 2], "InitMaxCost": 2, "MaxCosts": [2]},
     "g_upd": {"Keys": [1, 2, 3], "Hashes": [1, 2, 3], "Clients": [1], "MaxOps": 8, "Ops": ["set", "get"], "BufCap": 3,
@@ -150,20 +152,21 @@ GOALS = {
     "G_DroppedUpdate": "g_write", "G_BlockedDel": "g_write", "G_UpdateOfEvicted": "g_upd",
     "G_SweepWithBuffered": "g_ttl", "G_LateApply": "g_ttl", "G_ExpiredUnswept": "g_ttl",
     "G_ClearWithBacklog": "g_clear", "G_ClearWhileBusy": "g_clear", "G_ClearWithPending": "g_clear1",
-    "G_SameBucketRewrite": "g_ttl", "G_TTLDropped": "g_ttl",
+    "G_SameBucketRewrite": "g_ttl", "G_TTLDropped": "g_ttl", "G_SweepSkip": "g_ttl", "G_SetDuringSweepDel": "g_ttl",
+    "G_WaitBlockedInSend": "g_write", "G_TwoClears": "g_clear", "G_DelDuringVictims": "g_victim",
 }
 GOALS_FOR = {
-    "C02": ["G_UpdateOfEvicted", "G_DroppedUpdate", "G_ClearWhileBusy"],
+    "C02": ["G_UpdateOfEvicted", "G_DroppedUpdate", "G_ClearWhileBusy", "G_DelDuringVictims", "G_SetDuringSweepDel"],
     "C03": ["G_RaiseCost", "G_TwoVictims", "G_DuplicateVictim", "G_UpdateOfEvicted"],
     "C04": ["G_DroppedUpdate", "G_RejectWithVictims", "G_ClearWithBacklog", "G_ExpiredUnswept", "G_ClearWithPending"],
-    "C05": ["G_BlockedDel", "G_ClearWithBacklog"],
+    "C05": ["G_BlockedDel", "G_ClearWithBacklog", "G_DelDuringVictims", "G_WaitBlockedInSend"],
     "C06": ["G_LateApply1", "G_ExpiredUnswept1", "G_SameBucketRewrite1", "G_TTLDropped1"],
     "C07": ["G_ExpiredUnswept", "G_LateApply", "G_ExpiredUnswept1", "G_SameBucketRewrite1", "G_SameBucketRewrite", "G_TTLDropped1"],
-    "C08": ["G_BlockedDel", "G_ClearWithBacklog", "G_ClearWhileBusy"],
+    "C08": ["G_BlockedDel", "G_ClearWithBacklog", "G_ClearWhileBusy", "G_WaitBlockedInSend", "G_TwoClears"],
     "C09": ["G_RejectWithVictims", "G_TwoVictims", "G_DuplicateVictim"],
-    "C13": ["G_RejectWithVictims", "G_BlockedDel", "G_LateApply", "G_UpdateOfEvicted"],
-    "C14": ["G_SweepWithBuffered", "G_LateApply", "G_ExpiredUnswept", "G_SameBucketRewrite", "G_TTLDropped"],
-    "C15": ["G_ClearWithBacklog", "G_ClearWhileBusy", "G_ExpiredUnswept", "G_ClearWithPending"],
+    "C13": ["G_RejectWithVictims", "G_BlockedDel", "G_LateApply", "G_UpdateOfEvicted", "G_DelDuringVictims", "G_SweepSkip"],
+    "C14": ["G_SweepWithBuffered", "G_LateApply", "G_ExpiredUnswept", "G_SameBucketRewrite", "G_TTLDropped", "G_SweepSkip", "G_SetDuringSweepDel"],
+    "C15": ["G_ClearWithBacklog", "G_ClearWhileBusy", "G_ExpiredUnswept", "G_ClearWithPending", "G_TwoClears"],
     "C17": ["G_RejectWithVictims", "G_DroppedUpdate", "G_UpdateOfEvicted", "G_ClearWhileBusy", "G_ClearWithPending"],
 }
 
